@@ -28,6 +28,7 @@
 
 #include "bloch/compiler/semantics/built_ins.hpp"
 #include "bloch/support/error/bloch_error.hpp"
+#include "bloch/support/verif_hooks.hpp"
 
 namespace bloch::runtime {
 
@@ -530,7 +531,9 @@ namespace bloch::runtime {
         m_inStaticContext = false;
         m_inConstructor = false;
         m_inDestructor = false;
+        BLOCH_VERIF_POINT("execute.init.stop", &m_stopGc);
         m_stopGc = false;
+        BLOCH_VERIF_POINT("execute.init.req", &m_gcRequested);
         m_gcRequested = false;
         m_gcThreadStarted = false;
         m_allocSinceGc = 0;
@@ -549,12 +552,21 @@ namespace bloch::runtime {
             call(it->second, {});
         }
         if (m_gcThreadStarted) {
+            BLOCH_VERIF_POINT("execute.end.stop", &m_stopGc);
             m_stopGc = true;
+            BLOCH_VERIF_POINT("execute.end.req", &m_gcRequested);
             m_gcRequested = true;
             m_gcCv.notify_all();
             if (m_gcThread.joinable())
                 m_gcThread.join();
         }
+#ifdef BLOCH_VERIF_HOOKS
+        if (verif::gcAt) {
+            int verifGc = verif::gcAt(verif::pollIndex++);
+            if (verifGc >= 0)
+                m_gcRequested = verifGc != 0;
+        }
+#endif
         runCycleCollector();
         // Ensure warnings appear before any normal echo output
         if (m_warnOnExit)
@@ -563,6 +575,7 @@ namespace bloch::runtime {
     }
 
     RuntimeEvaluator::~RuntimeEvaluator() {
+        BLOCH_VERIF_POINT("dtor.stop", &m_stopGc);
         m_stopGc = true;
         m_gcCv.notify_all();
         if (m_gcThread.joinable())
@@ -1189,18 +1202,32 @@ namespace bloch::runtime {
     void RuntimeEvaluator::ensureGcThread() {
         if (m_gcThread.joinable())
             return;
+#ifdef BLOCH_VERIF_HOOKS
+        if (verif::noTimer) {
+            m_stopGc = false;
+            m_gcRequested = false;
+            m_gcThreadStarted = true;
+            return;
+        }
+#endif
+        BLOCH_VERIF_POINT("ensure.stop", &m_stopGc);
         m_stopGc = false;
+        BLOCH_VERIF_POINT("ensure.req", &m_gcRequested);
         m_gcRequested = false;
         m_gcThreadStarted = true;
         m_gcThread = std::thread([this]() {
+            BLOCH_VERIF_POINT("timer.begin", this);
             std::unique_lock<std::mutex> lock(m_gcMutex);
             while (!m_stopGc.load()) {
                 m_gcCv.wait_for(lock, std::chrono::milliseconds(50),
                                 [this]() { return m_stopGc.load(); });
+                BLOCH_VERIF_POINT("timer.check", &m_stopGc);
                 if (m_stopGc.load())
                     break;
+                BLOCH_VERIF_POINT("timer.request", &m_gcRequested);
                 requestGc();
             }
+            BLOCH_VERIF_POINT("timer.end", this);
         });
     }
 
@@ -1222,8 +1249,10 @@ namespace bloch::runtime {
     }
 
     void RuntimeEvaluator::runCycleCollector() {
+        BLOCH_VERIF_POINT("collector.load", &m_gcRequested);
         if (!m_gcRequested.load())
             return;
+        BLOCH_VERIF_POINT("collector.clear", &m_gcRequested);
         m_gcRequested = false;
         std::vector<std::shared_ptr<Object>> objects;
         {
@@ -1602,6 +1631,14 @@ namespace bloch::runtime {
     }
 
     void RuntimeEvaluator::exec(Statement* s) {
+#ifdef BLOCH_VERIF_HOOKS
+        if (verif::gcAt) {
+            int verifGc = verif::gcAt(verif::pollIndex++);
+            if (verifGc >= 0)
+                m_gcRequested = verifGc != 0;
+        }
+#endif
+        BLOCH_VERIF_POINT("exec.poll", &m_gcRequested);
         if (m_gcRequested.load())
             runCycleCollector();
         if (!s)
